@@ -131,8 +131,8 @@ def range_tables(rows8, rows8x, tier, rng, rep, stats):
                         desc["cause"], desc["dev"], pred = hz["cause"], hz["dev"], hz["pred"]
                         stats["hazard_calls"] += 1
                     tabs[tag].add("r_%s_%s_%s" % (form, L.sname(s), bounds), [a, b, bk, ck], want, desc, pred)
-    # (R1e, thorough) every (start, stop) of the real 8-bit types: typed bounds; the plain body everywhere,
-    # all bodies where a wrap event exists or the range is short
+    # (R1e, thorough) every (start, stop) of the real 8-bit types (|step| > 1): typed bounds; the plain body
+    # everywhere, plus a breaking and a continuing body where a wrap event exists
     seen = {(r["s"], r["form"], r["step"], r["start"], b) for r in rows8 for b in r["stops"]}
     for r in rows8x:
         tag = "schar" if r["s"] else "uchar"
@@ -142,7 +142,7 @@ def range_tables(rows8, rows8x, tier, rng, rep, stats):
             if (r["s"], form, s, a, b) in seen:
                 continue
             n, m, ev = r["n"][i], r["m"][i], r["ev"][i]
-            for bk, ck in (BODIES if (ev or n <= 3) else BODIES[:1]):
+            for bk, ck in ([(0, 0), (2, 0), (0, 1)] if ev else BODIES[:1]):
                 pred = None
                 desc = {"part": "range", "type": tag, "signed": bool(r["s"]), "bounds": "t", "form": form, "cause": "", "dev": False,
                         "special": special(bool(r["s"]), form, s)}
@@ -442,6 +442,9 @@ def run(tier, seed):
     rows8x = [r for cfg in range_cfgs if cfg.endswith("_e8") for r in tl[cfg].printed]
     tabs = range_tables(rows8, rows8x, tier, rng, rep, stats)
     tabs["cont"] = container_table(cases, tier, rng, stats)
+    del cases, rows, rows8, rows8x
+    for t in tl.values():
+        t.printed = []
     pdir = core.subdir("c14p")
     write_p_modules(pdir, CONST_TRIPLES)
     phase["tables"] = round(time.time() - t0, 1)
